@@ -36,7 +36,7 @@ class C09(BaseCheck):
   REQUIRED_CLASSES = ('thrift', 'mux', 'multi-endpoint', 'outage:refuse', 'outage:blackhole', 'down-at-first-connect', 'recovered',
                       'fail-fast-seen', 'backoff-capped', 'closed-while-down', 'closed-on-error', 'staggered-outages',
                       'recover:first-down-first', 'recover:last-down-first', 'rotation-during-outage', 'waiters-at-outage', 'stock-resurrector',
-                      'direct:close-same-instant-attempt-completes', 'outage:host-goes-silent', 'outage:host-goes-silent-mux', 'outages:thrift', 'outages:mux')
+                      'direct:close-same-instant-attempt-completes', 'outage:host-goes-silent', 'outage:host-goes-silent-mux', 'outages:thrift', 'outages:mux', 'outage:accept-drop')
   ASSUMPTIONS = ('initial_wait_interval > 1 (the implementation\'s x**exponent back-off only grows above 1)',
                  'black-holed connects give up after 3 s in these scenarios (SYN timeout shortened so that '
                  'attempt durations stay small against the retry intervals)')
@@ -391,6 +391,12 @@ class C09(BaseCheck):
         tick(rng.randint(2, 12))
         env.advance(rng.random() * delta)      # phase relative to traffic
         mode = rng.choice(['refuse', 'blackhole'])
+        if (idx // 4) % 3 == 1 and kind == 'mux':
+          # a proxy in front of the dead backend: connects are accepted and dropped at the first byte, so
+          # the multiplexed transport's open (connect + initial ping) fails.  (The serial transport has no
+          # handshake: for it such a connect is a successful open, and each request then discovers the
+          # outage anew - a series of short outages, not one.)
+          mode = 'accept-drop'
         if bounded and rng.random() < 0.7:
           # a burst just before the connection dies: some of these are queued in the pool then
           classes.add('waiters-at-outage')
